@@ -125,7 +125,7 @@ def distinct(E, pool):
 HOST_EXCL = tuple(sorted(set([SEP]) | set(range(48, 58)) | set(b"lL[")))
 
 
-def typed_lru(E, name, scheme=None, port=False, hosts=1, paths=0, L=1, www=False, host_excl=HOST_EXCL):
+def typed_lru(E, name, scheme=None, port=False, hosts=1, paths=0, L=1, www=False, host_excl=HOST_EXCL, special=None):
     """scheme stem (http/https chosen symbolically unless given), optional port,
     `hosts` host stems with symbolic payload, optional trailing concrete h:www,
     `paths` path stems with symbolic payload."""
@@ -138,6 +138,13 @@ def typed_lru(E, name, scheme=None, port=False, hosts=1, paths=0, L=1, www=False
     if port:
         stems.append(E.const(b"t:80|"))
         kinds.append("t")
+    if special is not None:
+        if isinstance(special, str):
+            special = special.encode()
+        # a concrete single host from the localhost / IPv4 / IPv6 arm of Hyphe's patterns
+        stems.append(E.const(b"h:" + special + b"|"))
+        kinds.append("H")
+        hosts = 0
     for h in range(hosts):
         stems.append(E.const(b"h:") + E.bytes("%s.h%d" % (name, h), L, exclude=host_excl) + E.const(b"|"))
         kinds.append("h")
@@ -165,7 +172,8 @@ def typed_pool(E, specs, L=1, scheme=b"http", tag="t"):
             pool.append(PL(stems, "%s%d" % (tag, i), kinds))
             continue
         pool.append(typed_lru(E, "%s%d" % (tag, i), scheme=sp.get("scheme", scheme), port=sp.get("port", False),
-                              hosts=sp.get("hosts", 2), paths=sp.get("paths", 0), L=L, www=sp.get("www", False)))
+                              hosts=sp.get("hosts", 2), paths=sp.get("paths", 0), L=L, www=sp.get("www", False),
+                              special=sp.get("special")))
     distinct(E, pool)
     return pool
 
@@ -183,11 +191,17 @@ def rule_prefix(pl, rule):
     i = 1
     if i < len(kinds) and kinds[i] == "t":
         i += 1
-    nh = 0
-    while i + nh < len(kinds) and kinds[i + nh] == "h":
-        nh += 1
-    if nh < 2:
-        return None
+    if i < len(kinds) and kinds[i] == "H":
+        # single special host (localhost, IPv4, IPv6): every rule of the family takes it as the whole host part
+        nh = 1
+        if rule == "domain":
+            return pl.prefix(i + 1)
+    else:
+        nh = 0
+        while i + nh < len(kinds) and kinds[i + nh] == "h":
+            nh += 1
+        if nh < 2:
+            return None
     if rule == "domain":
         return pl.prefix(i + 2)
     if rule == "subdomain":
